@@ -22,6 +22,8 @@ Inductive act :=
 | AAbortable               (* sender._abortable_error(...): the transaction becomes ABORTABLE_ERROR *)
 | ARetryAfterBackoff       (* return a backoff: the sender runs the handler again later *)
 | ARaiseFenced             (* raise ProducerFenced(): fatal *)
+| AAwaitReset              (* the consumer gives up its position: reset by the auto_offset_reset policy *)
+| ASetError                (* an error is buffered for the application (raised by the next getone/getmany) *)
 | ARaiseSame               (* raise error_type(...) : the broker's own error class *)
 | ARaiseCode (c : Z)
 | ARaiseUnexpected         (* raise Errors.KafkaError(...) : "unexpected error", fatal *)
@@ -45,6 +47,7 @@ Definition act_eqb (a b : act) : bool :=
   | ASetMemberId, ASetMemberId | ARetryJoin, ARetryJoin | ANoRetry, ANoRetry | AErrored, AErrored
   | ADone, ADone | AFail, AFail | AReenqueue, AReenqueue
   | AAbortable, AAbortable | ARetryAfterBackoff, ARetryAfterBackoff | ARaiseFenced, ARaiseFenced
+  | AAwaitReset, AAwaitReset | ASetError, ASetError
   | ARaiseSame, ARaiseSame | ARaiseUnexpected, ARaiseUnexpected | ARaiseOther, ARaiseOther
   | AFallThrough, AFallThrough => true
   | ARaiseCode x, ARaiseCode y => x =? y
